@@ -138,6 +138,20 @@ var ops = []opGen{
 		// a path that was staged or committed before, is no longer staged and no longer on disk, comes back as a new file
 		return Step{Op: "write", Path: g.Pick(unstagedGone(g), "unstagedGone"), Data: g.contentFor()}
 	}},
+	{"write-temp-sibling", hasTracked, func(g *G) Step {
+		// an UNTRACKED file whose name is what a tool would choose for a temporary or backup copy of a tracked file
+		// (a command that rewrites tracked files must not use, truncate or remove such a neighbour)
+		t := g.Pick(g.E.Cur.Tracked(), "tracked")
+		p := t + g.Pick([]string{".tmp", "~", ".lock", ".orig", ".new", ".bak", ".swp", ".tmp~"}, "tempSuffix")
+		if g.Chance(20, "dotted") {
+			i := strings.LastIndex(t, "/")
+			p = t[:i+1] + "." + t[i+1:] + ".tmp"
+		}
+		if g.E.H.EverStaged[p] || !g.pathUsable(p) {
+			p = g.NewPath()
+		}
+		return Step{Op: "write", Path: p, Data: g.contentFor()}
+	}},
 	{"rmdir", func(g *G) bool { return len(g.WorkDirs()) > 0 }, func(g *G) Step {
 		return Step{Op: "rmdir", Path: g.Pick(g.WorkDirs(), "dir")}
 	}},
@@ -157,7 +171,7 @@ var ops = []opGen{
 		}
 		return Step{Op: "goit", Args: append([]string{"rm"}, args...), Note: "invalid"}
 	}},
-	{"commit", always, func(g *G) Step { return goit("commit", "-m", g.Message(g.E.hostileMsgs)) }},
+	{"commit", always, func(g *G) Step { return goit("commit", "-m", g.Message(g.E.hostileMsgs || g.Chance(20, "hostileMessageAnyway"))) }},
 	{"restore", hasTracked, func(g *G) Step { return genRestore(g, false) }},
 	{"restore-staged", hasCommit, func(g *G) Step { return genRestore(g, true) }},
 	{"restore-invalid", always, func(g *G) Step {
